@@ -2,6 +2,7 @@
 package props
 
 import (
+	"crypto/sha256"
 	"time"
 	"os"
 	"strings"
@@ -281,3 +282,9 @@ func (st *StateTracker) Hooks(dbfile string, height func() uint32) *sqlw.Hooks {
 }
 
 func timeUnix(s int64) time.Time { return time.Unix(s, 0) }
+
+func sha256d(b []byte) []byte {
+	h := sha256.Sum256(b)
+	h2 := sha256.Sum256(h[:])
+	return h2[:]
+}
